@@ -46,35 +46,40 @@ def one_case(c: dict[str, Any]) -> dict[str, Any]:
             w.io_chunk(sock, w.noise_handshake_bytes())
             w.drain()
             noise_reject = exp_name is not None and nname is not None and nname != exp_name
-        hello = w.dframe(mk("HelloResponse", api_version_major=c["major"], api_version_minor=c["minor"], server_info="s", name=hello_name)) \
-            if not (noise and noise_reject) else b""
         conn_ok = not c["invalid"]
         chunks: list[bytes] = []
         if not (noise and noise_reject):
-            cr = w.dframe(mk("ConnectResponse", invalid_password=c["invalid"]))
             order = c["order"]
+            H = mk("HelloResponse", api_version_major=c["major"], api_version_minor=c["minor"], server_info="s", name=hello_name)
+            CR = mk("ConnectResponse", invalid_password=c["invalid"])
+            DR = mk("DisconnectRequest")
+            # messages per chunk, in sending order (Noise frames carry consecutive nonces: frames are built in exactly this order)
+            plan: list[list[Any]]
             if order == "two-chunks":
-                chunks = [hello] + ([cr] if login else [])
+                plan = [[H]] + ([[CR]] if login else [])
             elif order == "one-chunk":
-                chunks = [hello + (cr if login else b"")]
+                plan = [[H] + ([CR] if login else [])]
             elif order == "one-chunk+DR":
                 # the device's (possibly rejecting) answer and its disconnect request share one chunk
-                chunks = [hello + (cr if login else b"") + w.dframe(mk("DisconnectRequest"))]
+                plan = [[H] + ([CR] if login else []) + [DR]]
             elif order == "then-DR":
-                chunks = [hello + (cr if login else b""), w.dframe(mk("DisconnectRequest"))]
+                plan = [[H] + ([CR] if login else []), [DR]]
             elif order == "bytewise":
-                data = hello + (cr if login else b"")
-                chunks = [data[i : i + 1] for i in range(len(data))]
+                plan = [[H] + ([CR] if login else [])]
             elif order == "connect-first":
-                chunks = [cr, hello] if login else [hello, cr]  # without login: an unsolicited connect response after the hello
+                plan = [[CR], [H]] if login else [[H], [CR]]  # without login: an unsolicited connect response after the hello
             elif order == "verdict-twice":
                 # the first verdict decides; a second, contradicting one in the same chunk must not overturn it
-                cr2 = w.dframe(mk("ConnectResponse", invalid_password=not c["invalid"]))
-                chunks = [hello + (cr + cr2 if login else b"")]
+                plan = [[H] + ([CR, mk("ConnectResponse", invalid_password=not c["invalid"])] if login else [])]
             elif order == "hello-twice":
                 # a second hello (acceptable values) in the same chunk must not overturn the first one
-                h2 = w.dframe(mk("HelloResponse", api_version_major=1, api_version_minor=10, server_info="s", name=EXPECTED if exp_name else hello_name))
-                chunks = [hello + h2 + (cr if login else b"")]
+                h2 = mk("HelloResponse", api_version_major=1, api_version_minor=10, server_info="s", name=EXPECTED if exp_name else hello_name)
+                plan = [[H, h2] + ([CR] if login else [])]
+            else:
+                raise HarnessError(order)
+            chunks = [b"".join(w.dframe(m) for m in ch) for ch in plan]
+            if order == "bytewise":
+                chunks = [chunks[0][i : i + 1] for i in range(len(chunks[0]))]
         for ch in chunks:
             if sock.closed:
                 break
@@ -172,8 +177,10 @@ def _job(c: dict[str, Any]) -> dict[str, Any]:
 
 def cases(tier: str) -> list[dict[str, Any]]:
     out = []
+    majors = MAJORS if tier == "quick" else tuple(sorted(set(MAJORS) | set(range(0, 12)) | {127, 128, 255, 256, 65535, 2**31 - 1, 2**31}))
+    minors = MINORS if tier == "quick" else tuple(sorted(set(MINORS) | set(range(0, 16)) | {255, 65535, 2**32 - 1}))
     for major, minor, name, expected, login, password, invalid, order in itertools.product(
-        MAJORS, MINORS, ("empty", "equal", "other"), (False, True), (False, True), (False, True), (False, True), ORDERS
+        majors, minors, ("empty", "equal", "other"), (False, True), (False, True), (False, True), (False, True), ORDERS
     ):
         if not login and (invalid and order not in ("connect-first",)):
             continue  # no verdict is sent without login (except the unsolicited one)
@@ -181,8 +188,10 @@ def cases(tier: str) -> list[dict[str, Any]]:
             continue
         out.append({"noise": False, "major": major, "minor": minor, "name": name, "expected": expected, "login": login,
                     "password": password, "invalid": invalid, "order": order})
+    noise_orders = ORDERS
+    noise_majors = (0, 1, 2, 3, 4, 2**32 - 1)
     for nn, major, name, expected, login, invalid, order in itertools.product(
-        NOISE_NAMES, (1, 2, 3), ("empty", "equal", "other"), (False, True), (False, True), (False, True), ("two-chunks", "one-chunk", "connect-first", "verdict-twice")
+        NOISE_NAMES, noise_majors, ("empty", "equal", "other"), (False, True), (False, True), (False, True), noise_orders
     ):
         if not login and invalid:
             continue
